@@ -234,6 +234,53 @@ func runHistoryDialect(hist []uint64, di *dialectInfo, known []bool) (string, er
 	return cls, nil
 }
 
+// runHistoryOnALink: the same history read by the reading half of a link (frame.ReadWriter with both keys) on which
+// this side has already sent signed frames - stamped with the local clock, which has nothing to do with the peer's.
+// The window is about what the reader has accepted; what the link has sent is none of its business.
+func runHistoryOnALink(di *dialectInfo, hist []uint64, sentBefore int, viaStream bool) error {
+	var stream []byte
+	for i, ts := range hist {
+		stream = append(stream, signedAtID(ts, byte(i), 70001)...) // a message the link's dialect does not contain
+	}
+	rw := &frame.ReadWriter{ByteReadWriter: struct {
+		io.Reader
+		io.Writer
+	}{bytes.NewReader(stream), io.Discard}, DialectRW: di.rw, InKey: keyOf(&c07Key), OutVersion: frame.V2, OutSystemID: 1, OutSignatureLinkID: 2, OutKey: keyOf(&c07Key)}
+	if err := rw.Initialize(); err != nil {
+		return fmt.Errorf("BROKEN: %v", err)
+	}
+	for k := 0; k < sentBefore; k++ {
+		var err error
+		if viaStream {
+			sw := &streamwriter.Writer{FrameWriter: rw.Writer, Version: streamwriter.V2, SystemID: 1, SignatureLinkID: 2, Key: keyOf(&c07Key)}
+			if err = sw.Initialize(); err == nil {
+				err = sw.Write(heartbeatValue(di))
+			}
+		} else {
+			err = rw.WriteMessage(heartbeatValue(di))
+		}
+		if err != nil {
+			return fmt.Errorf("BROKEN: write on the link: %v", err)
+		}
+	}
+	var m windowModel
+	for i, ts := range hist {
+		fr, err := rw.Read()
+		var re frame.ReadError
+		if err != nil && !asReadError(err, &re) {
+			return fmt.Errorf("history %v on a link: frame %d: reader ended with %v", hist, i, err)
+		}
+		hadNewest, newest := m.has, m.newest
+		want := m.step(ts)
+		if got := err == nil && fr != nil; got != want {
+			verdict := map[bool]string{true: "accepted", false: "refused"}
+			return fmt.Errorf("step %d of history %v, read by the reading half of a frame.ReadWriter on which %d signed frames had been sent before (stamped with the local clock; through streamwriter: %v): timestamp %d was %s (err=%v) but must be %s (newest accepted so far: %d, present=%v)",
+				i, hist, sentBefore, viaStream, ts, verdict[got], err, verdict[want], newest, hadNewest)
+		}
+	}
+	return nil
+}
+
 var c07Alphabet = []uint64{0, 1, 5, 999999, 1000000, 1000001, 2000000, 2000001, 3000000, 1 << 32,
 	1<<48 - 1000001, 1<<48 - 1000000, 1<<48 - 1}
 
@@ -289,7 +336,7 @@ func TestC07WindowEnumerated(t *testing.T) {
 
 func TestC07WindowRandom(t *testing.T) {
 	rec := evid.New(t, "C07", "rapid histories (<=40 frames) mixing boundary values, random 48-bit timestamps and newest+-delta around 1,000,000; model comparison at every step; non-trivial = some frame older than newest but inside the window, on the boundary, or newest < 1,000,000; distinct by hash of the history")
-	rec.Require("inside-window", "on-boundary", "just-outside", "newest-below-window", "forged-interleaved", "dialect-reader-known+unknown-messages", "frame-repeated-byte-for-byte", "run-of-8+-stale-frames-with-rising-timestamps", "transport-error-between-frames", "same-key-stored-again-between-frames", "application-restamps-received-frames", "second-link-with-the-same-key-object", "history-with-setup-signing-or-foreign-checksum-frames")
+	rec.Require("inside-window", "on-boundary", "just-outside", "newest-below-window", "forged-interleaved", "dialect-reader-known+unknown-messages", "frame-repeated-byte-for-byte", "run-of-8+-stale-frames-with-rising-timestamps", "transport-error-between-frames", "same-key-stored-again-between-frames", "application-restamps-received-frames", "second-link-with-the-same-key-object", "history-with-setup-signing-or-foreign-checksum-frames", "history-read-by-a-link-that-has-sent-signed-frames")
 	common, _ := dialects(t)
 	evid.Check(t, rec, evid.N(40000, 200000), func(t *rapid.T) {
 		readBufSize = 512
@@ -383,6 +430,13 @@ func TestC07WindowRandom(t *testing.T) {
 			t.Fatalf("%v", err)
 		}
 		var cs []string
+		if rapid.IntRange(0, 2).Draw(t, "read_by_a_link_that_has_sent") == 0 {
+			if err := runHistoryOnALink(common, hist, rapid.IntRange(1, 3).Draw(t, "sent_before"), rapid.Bool().Draw(t, "sent_through_streamwriter")); err != nil {
+				evid.ReplayNote("C07", "TestC07WindowRandom", err.Error())
+				t.Fatalf("%v", err)
+			}
+			cs = append(cs, "history-read-by-a-link-that-has-sent-signed-frames")
+		}
 		// the same history with the transport failing once at up to three places between frames
 		if rapid.Bool().Draw(t, "with_transport_gaps") {
 			for k := rapid.IntRange(1, 3).Draw(t, "ngaps"); k > 0; k-- {
